@@ -534,6 +534,32 @@ def memo_external(chk) -> None:
     chk.ok("memo-external-state", "package", f"{n} memoised functions (lru_cache / cache, as decorator or wrapped at module level): none reads the file system, the environment, the clock or standard input, directly or through package functions it calls")
 
 
+def borrowed_arrays(chk) -> None:
+    """An array kept by an object (a cached_property, a field) is that object's state: an in-place numpy operation through a name that
+    merely aliases it (`acc = atom.coordinates; acc += ...`) changes it for every later reader, so a query asked twice - or asked after
+    another query - answers differently (sa/alias.py, origin analysis over the package)."""
+    from sa import alias
+
+    try:
+        found, attrs, n_funcs = alias.findings(chk.repo)
+    except Exception as ex:
+        chk.error("borrowed-array-write", "package", f"alias analysis failed: {type(ex).__name__}: {str(ex)[:120]}")
+        return
+    k = 0
+    for fi, node, name, src, attr, op in found:
+        if attr == "parameter":
+            continue  # writing into a caller's array can be a function's contract; the owner-state case is the one that makes calls history dependent
+        k += 1
+        chk.violation(
+            "borrowed-array-write",
+            fi.site(node),
+            f"{op} `{name}`, which aliases {src} ({'; '.join(attrs.get(attr, [])[:2])}): the object's own array is changed for good, so every value computed from it afterwards - in this call or a later one in the same process - differs from what a fresh process computes for the same input",
+            key=f"{fi.module.name}:{fi.qualname}:borrowed:{attr}:{name}",
+        )
+    if k == 0:
+        chk.ok("borrowed-array-write", "package", f"{n_funcs} functions read; arrays kept per object: {sorted(attrs)}; no in-place numpy operation reaches one of them through an alias")
+
+
 def run(chk) -> None:
     chk.explanation = (
         "Iteration-order taint analysis over every function of the package: light type inference (annotations, constructors, adds, "
@@ -550,7 +576,7 @@ def run(chk) -> None:
     )
     chk.trusted = ["CPython: set iteration order is a function of the hashes and the insertion history", "scipy/pulp/pandas/mmcif internals are deterministic", "dict and OrderedSet preserve insertion order"]
     chk.assumptions = ["int/float/tuple-of-int hashes do not depend on PYTHONHASHSEED"]
-    chk.robust |= {"order-taint", "nondeterministic-value", "receiver-write", "cache-introspection", "shared-state", "query-write", "run-dependent-name", "memo-external-state"}
+    chk.robust |= {"order-taint", "nondeterministic-value", "receiver-write", "cache-introspection", "shared-state", "query-write", "run-dependent-name", "memo-external-state", "borrowed-array-write"}
     n = analyse(chk, chk.repo, None, "package")
     # repeated calls: no query changes the object it is asked on, none looks at the cache, no module-level container is consumed
     from checks import c12
@@ -560,6 +586,7 @@ def run(chk) -> None:
     shared_state(chk)
     run_values(chk)
     memo_external(chk)
+    borrowed_arrays(chk)
     if n < 8:
         chk.error("order-taint", "-", f"only {n} set-typed iteration sites recognised (9 confirmed on the pinned tree): the type inference lost track of the sets")
 
